@@ -179,3 +179,23 @@ Proof.
   intros w h count seed H1 H2 H3. destruct (coordinates w h count seed H1 H2 H3) as (cs & E & R).
   exists cs. split; [|exact R]. rewrite matrix_generate_coordinates_translated, E. reflexivity.
 Qed.
+
+(* ---- MatrixCard::get_matrix_card_size and MatrixCard::from_data (u8 parameters) ---- *)
+Lemma matrix_get_matrix_card_size_translated : forall d h w, d < 256 -> h < 256 -> w < 256 ->
+  tr_matrix_get_matrix_card_size d h w = Some (get_matrix_card_size d h w).
+Proof.
+  intros d h w Hd Hh Hw. unfold tr_matrix_get_matrix_card_size, get_matrix_card_size. cbv zeta.
+  assert (d * h <= 255 * 255) by nia. assert (d * h * w <= 255 * 255 * 255) by nia.
+  destruct (18446744073709551615 <? d * h) eqn:E1; [lia|].
+  destruct (18446744073709551615 <? d * h * w) eqn:E2; [lia|]. reflexivity.
+Qed.
+
+Definition card_view (c : card) := (c_digits c, c_width c, c_height c, c_data c).
+
+Lemma matrix_from_data_translated : forall d h w data, d < 256 -> h < 256 -> w < 256 ->
+  tr_matrix_from_data d h w data = Some (option_map card_view (from_data d h w data)).
+Proof.
+  intros d h w data Hd Hh Hw. unfold tr_matrix_from_data, from_data.
+  rewrite matrix_get_matrix_card_size_translated by assumption.
+  destruct (N.of_nat (length data) =? get_matrix_card_size d h w); reflexivity.
+Qed.
